@@ -66,20 +66,24 @@ MUTATORS = ([("register_system", s, b) for s in ("S0", "S1") for b in ("given", 
 QUERIES = [("q", n) for n in ("capture", "relative_capture", "system_capture", "system_relative_capture", "in_gamut",
                               "in_gamut_normalized", "range_of_solutions", "sample_in_gamut", "fit_gaussian", "fit_poisson",
                               "fit_excitation", "compute_gamut", "gamut_l1_scaling", "gamut_dist_scaling",
-                              "fit_underdetermined", "minimize_variance")]
+                              "fit_underdetermined", "minimize_variance",
+                              # read-only queries about the REGISTERED targets (no argument)
+                              "in_gamut_registered", "range_of_solutions_registered")]
 ALPHABET = MUTATORS + QUERIES
 
 M = Monitor(
     pid="C14",
     setup=_setup,
-    exhaustive_claim="every history of length <= 2 over the 36-symbol alphabet (quick and thorough) and every mutator-only history of length 3 (thorough), from a registered start state, with arguments from fixed pools",
+    exhaustive_claim="every history of length <= 2 over the 38-symbol alphabet (quick and thorough) and every mutator-only history of length 3 (thorough), from a registered start state, with arguments from fixed pools",
     title="Estimator answers depend only on what is currently registered; queries are pure",
     rule=("histories over the alphabet {register_system(2 source sets x given/default bounds), register_bounds(3), "
           "register_adaptation(scalar/vector/matrix), register_baseline(3), register_background_adaptation(add F/T), "
-          "register_system_adaptation(add F/T), register_targets(+-W), fit(), 16 read-only queries}; enumerated exhaustively "
+          "register_system_adaptation(add F/T), register_targets(+-W), fit(), 18 read-only queries (two of them about the registered targets)}; enumerated exhaustively "
           "for length <= 2 (quick) and mutator-only length 3 (thorough), random histories of length <= 12 (quick) / 30 "
           "(thorough). non-trivial = history contains >= 2 mutators or a query after a mutator. distinct = the history itself"),
-    budget={"quick": (len(ALPHABET) ** 2 + len(ALPHABET) + 130, 100), "thorough": (len(MUTATORS) ** 3 + len(ALPHABET) ** 2 + 3000, 2400)},
+    # sized so that the weighted round-robin completes both enumerations (weights: len2 6, mut3 8, random 1, random_long 1)
+    budget={"quick": ((-(-(len(ALPHABET) ** 2 + len(ALPHABET)) // 6)) * 7 + 7, 120),
+            "thorough": ((-(-(len(MUTATORS) ** 3) // 8)) * 16 + 16, 2400)},
     anchors=[("dreye.api.estimator", "ReceptorEstimator." + n) for n in
              ("register_system", "register_bounds", "register_adaptation", "register_baseline",
               "register_background_adaptation", "register_system_adaptation", "register_targets", "fit", "in_hull",
@@ -232,6 +236,11 @@ def run_query(est, name):
             return "ok", est.in_gamut(arg(T1))
         if name == "in_gamut_normalized":
             return "ok", est.in_gamut(arg(T1), normalized=True)
+        if name == "in_gamut_registered":
+            return "ok", est.in_gamut()
+        if name == "range_of_solutions_registered":
+            r = est.range_of_solutions(error="ignore")
+            return "ok", np.concatenate([np.ravel(r[0]), np.ravel(r[1])])
         if name == "range_of_solutions":
             r = est.range_of_solutions(arg(T1), error="ignore")
             return "ok", np.concatenate([np.ravel(r[0]), np.ravel(r[1])])
@@ -266,7 +275,7 @@ def run_query(est, name):
 
 
 ARGS = []
-TOL = {"fit_excitation": 3e-2, "fit_poisson": 5e-3, "fit_gaussian": 1e-5, "range_of_solutions": 1e-6, "minimize_variance": 2e-3,
+TOL = {"range_of_solutions_registered": 1e-6, "fit_excitation": 3e-2, "fit_poisson": 5e-3, "fit_gaussian": 1e-5, "range_of_solutions": 1e-6, "minimize_variance": 2e-3,
        "fit_underdetermined": 1e-4, "gamut_dist_scaling": 1e-7, "compute_gamut": 1e-9}
 BATTERY = ["relative_capture", "system_relative_capture", "in_gamut", "fit_gaussian"]
 
